@@ -32,11 +32,13 @@ type Interp struct {
 	below    func(field string) []absStack
 	// precisePrev: frames remember what they were pushed over (superset comparison of the SEN parser)
 	precisePrev bool
+	prevDepth   int // how many covered frames a frame remembers (default 1)
 	// buildKinds: the kind of the top of the build stack (key / map / other) is tracked
 	buildKinds bool
 	// selfEvents: build-stack operations and hand-offs (stores, callback calls, channel sends of a
 	// build-stack element) are recorded as events (chunk-independence comparison of a machine with itself)
 	selfEvents bool
+	recvName   string // name of the receiver variable in the dispatch function
 	nilTested  map[string]bool // untracked nilable receiver fields nil-tested by the dispatch function or what it calls
 	trackReads bool // record reads-before-write of tracked fields (liveness sampling)
 	noScratch  bool // scratch-buffer typestate is not followed (decided by the exploration of the machine alone)
@@ -460,7 +462,11 @@ func (in *Interp) stackAssign(lhs, rhs ast.Expr, st *State) ([]*State, bool) {
 				}
 				fr := absStack{Top: v, Saved: e.st.bs}
 				if in.precisePrev {
-					fr.Prev = e.st.stacks[f].prevKey()
+					d := in.prevDepth
+					if d < 1 {
+						d = 1
+					}
+					fr.Prev = e.st.stacks[f].chain(d)
 				}
 				e.st.stacks[f] = fr
 				e.st.pushed = append(e.st.pushed, pushRec{Field: f, V: v})
@@ -495,7 +501,7 @@ func (in *Interp) stackAssign(lhs, rhs ast.Expr, st *State) ([]*State, bool) {
 					e.st.shiftLen(f, +1)
 					cands := in.below(f)
 					for _, c := range cands {
-						if cur.Prev != "" && c.prevKey() != cur.Prev {
+						if !cur.covers(c) {
 							continue // not what this frame was pushed over
 						}
 						n := e.st.clone()
@@ -1254,7 +1260,7 @@ func (in *Interp) cond(e ast.Expr, st *State) []condRes {
 		}
 		t, f := r.st.clone(), r.st
 		if in.selfEvents {
-			pos := in.prog.Pos(e.Pos())
+			pos := in.condKey(e)
 			t.decisions = append(append([]string{}, t.decisions...), pos+"=1")
 			f.decisions = append(append([]string{}, f.decisions...), pos+"=0")
 		}
@@ -1322,7 +1328,7 @@ func (in *Interp) compare(op token.Token, l, r Val, st *State, at ast.Expr) []co
 		}
 		t, f := st.clone(), st
 		if in.selfEvents {
-			pos := in.prog.Pos(at.Pos())
+			pos := in.condKey(at)
 			t.decisions = append(append([]string{}, t.decisions...), pos+"=1")
 			f.decisions = append(append([]string{}, f.decisions...), pos+"=0")
 		}
@@ -1787,4 +1793,15 @@ func (in *Interp) nilTestField(x *ast.BinaryExpr, st *State) (string, bool) {
 		return "", false
 	}
 	return f, true
+}
+
+// condKey identifies a condition over untracked data by its text with the
+// receiver's name normalised, so that hand-copied front-ends (p.num..., t.num...)
+// and the fast and slow path of one front-end share keys.
+func (in *Interp) condKey(e ast.Expr) string {
+	s := types.ExprString(e)
+	if in.recvName != "" {
+		s = strings.ReplaceAll(s, in.recvName+".", "recv.")
+	}
+	return s
 }
